@@ -29,17 +29,17 @@ def build_driver(asserts):
 
 def groups(tier):
     thorough = tier == 'thorough'
-    L = 8 if thorough else 6
-    SL = 5 if thorough else 4
+    L = 12 if thorough else 6
+    SL = 6 if thorough else 4
     g = []
     for l1 in range(1, L + 1):
         for l2 in range(1, L + 1):
             g.append(('distance', l1, l2, 0))
-            if max(l1, l2) <= (7 if thorough else 5):
+            if max(l1, l2) <= (10 if thorough else 5):
                 g.append(('wps', l1, l2, 0))
             if max(l1, l2) <= SL:
                 g.append(('slices', l1, l2, 0))
-            if max(l1, l2) <= (6 if thorough else 4):
+            if max(l1, l2) <= (8 if thorough else 4):
                 g.append(('affinity', l1, l2, 0))
             g.append(('bounds', l1, l2, 0))
     for n in range(1, 5):
@@ -257,7 +257,7 @@ def run(ctx):
         rule='native enumeration (no sampling) of shapes x window 0..max+1 x psi 4-tuples x option sets x inner distance x ndim 1..3 x 3 value patterns for every exported routine, '
              'buffers malloc\'ed at exactly the documented size, under ASan+UBSan, once with asserts compiled out (as shipped) and once compiled in; a second pass through the Cython '
              'wrappers of an ASan-built extension; a state is one configuration; non-trivial = window < max, psi != 0 or ndim > 1 (all but ~5% by construction)',
-        bounds={'shapes': '(l1,l2) in [1..%d]^2 for distance/bounds, <= %d for warping paths, <= %d for all slices/custom starts' % ((8, 7, 5) if ctx.thorough else (6, 5, 4)),
+        bounds={'shapes': '(l1,l2) in [1..%d]^2 for distance/bounds, <= %d for warping paths, <= %d for all slices/custom starts' % ((12, 10, 6) if ctx.thorough else (6, 5, 4)),
                 'psi': '{0,1,len%s}^4 including the degenerate combinations' % (',2' if ctx.thorough else ''),
                 'options': 'none, penalty, max_step, max_dist+penalty, use_pruning, only_ub',
                 'distances': 'every block of n <= 4 series, serial and OpenMP (real libgomp, 3 threads), ptrs/matrix/matrices, ndim 1-2, output of exactly dtw_distances_length',
